@@ -202,6 +202,23 @@ def bad_key(n, k):
     try:
         h.set_int_key(k, 1)
     except Exception:
+        # a refused key must leave no trace: the map is still empty, and after a valid entry it serialises as a fresh map does
+        if n > 900:
+            return "rejected"
+        try:
+            if h.serialize() is not None:
+                return "rejected, but the map is no longer empty afterwards"
+            h.set_int_key(1, 9)
+            for form in (k, format(k & ((1 << (n + 8)) - 1), "b").zfill(n + 1)):
+                try:
+                    h.set(form, 2) if hasattr(h, "set") else h.set_int_key(form, 2)
+                except Exception:
+                    pass
+            fresh = HashMap(n).with_uint_values(8).set_int_key(1, 9).serialize()
+            if h.serialize().hash != fresh.hash:
+                return "rejected, but the refused key changed what the map serialises to"
+        except Exception as e:
+            return "rejected, but the map is unusable afterwards: " + type(e).__name__
         return "rejected"
     try:
         c = h.serialize()
